@@ -80,12 +80,39 @@ Proof.
   unfold find_ent. simpl. rewrite Nat.eqb_sym, H1. apply IH. exact H2.
 Qed.
 
+Record wf_c_facts (c : coord) : Prop := {
+  wc_nodup : nodupb (ids (c_ents c)) = true;
+  wc_0e : memb 0 (ids (c_ents c)) = false;
+  wc_0p : memb 0 (c_pend c) = false;
+  wc_pend : forallb (fun x => negb (memb x (ids (c_ents c)))) (c_pend c) = true;
+  wc_nonempty : cstate_eqb (c_st c) CEmpty || negb (is_none (hd_error (c_ents c))) = true;
+  wc_empty : negb (cstate_eqb (c_st c) CEmpty) || is_none (hd_error (c_ents c)) = true;
+  wc_jp : cstate_eqb (c_st c) CPreparing || forallb (fun e => negb (e_jp e)) (c_ents c) = true;
+  wc_sp : cstate_eqb (c_st c) CCompleting || forallb (fun e => negb (e_sp e)) (c_ents c) = true;
+  wc_notall : negb (cstate_eqb (c_st c) CPreparing) || negb (all_joined (c_ents c)) = true;
+  wc_leader : match c_st c with CCompleting | CStable => memb (c_leader c) (ids (c_ents c)) && negb (c_gen c =? 0) | _ => true end = true;
+  wc_lsp : ent_sp c (c_leader c) = false }.
+Lemma wf_c_parts : forall c, wf_c c = true -> wf_c_facts c.
+Proof.
+  intros c H. unfold wf_c in H.
+  apply andb_true_iff in H; destruct H as [H A11]. apply andb_true_iff in H; destruct H as [H A10].
+  apply andb_true_iff in H; destruct H as [H A9]. apply andb_true_iff in H; destruct H as [H A8].
+  apply andb_true_iff in H; destruct H as [H A7]. apply andb_true_iff in H; destruct H as [H A6].
+  apply andb_true_iff in H; destruct H as [H A5]. apply andb_true_iff in H; destruct H as [H A4].
+  apply andb_true_iff in H; destruct H as [H A3]. apply andb_true_iff in H; destruct H as [A1 A2].
+  apply negb_true_iff in A2, A3, A11. constructor; assumption.
+Qed.
+Lemma wf_c_of_parts : forall c, wf_c_facts c -> wf_c c = true.
+Proof.
+  intros c [A1 A2 A3 A4 A5 A6 A7 A8 A9 A10 A11]. unfold wf_c.
+  rewrite A1, A2, A3, A4, A5, A6, A7, A8, A9, A10, A11. reflexivity.
+Qed.
+
 Lemma wf_c_zfacts : forall c, wf_c c = true -> zfacts c.
 Proof.
-  intros c H. unfold wf_c in H. repeat (apply andb_true_iff in H; destruct H as [H ?]).
-  apply negb_true_iff in H8, H9. unfold zfacts. repeat split; try assumption.
-  - unfold ent_jp. rewrite (find_ent_none 0 _ H9). reflexivity.
-  - unfold ent_sp. rewrite (find_ent_none 0 _ H9). reflexivity.
+  intros c H. destruct (wf_c_parts c H). unfold zfacts. repeat split; try assumption.
+  - unfold ent_jp. rewrite (find_ent_none 0 _ wc_0e0). reflexivity.
+  - unfold ent_sp. rewrite (find_ent_none 0 _ wc_0e0). reflexivity.
 Qed.
 
 
@@ -233,9 +260,9 @@ Qed.
 
 Lemma pend_not_ent : forall c x, wf_c c = true -> memb x (ids (c_ents c)) = true -> memb x (c_pend c) = false.
 Proof.
-  intros c x H He. unfold wf_c in H. repeat (apply andb_true_iff in H; destruct H as [H ?]).
+  intros c x H He. destruct (wf_c_parts c H).
   destruct (memb x (c_pend c)) eqn:Ep; [|reflexivity]. exfalso.
-  apply memb_In in Ep. rewrite forallb_forall in H7. specialize (H7 x Ep). rewrite He in H7. discriminate.
+  apply memb_In in Ep. rewrite forallb_forall in wc_pend0. specialize (wc_pend0 x Ep). rewrite He in wc_pend0. discriminate.
 Qed.
 
 Lemma cons_id_nat : forall c x, wf_c c = true ->
@@ -249,6 +276,28 @@ Proof.
     + unfold ent_jp, ent_sp. rewrite (find_ent_none x _ He). simpl. destruct (memb x (c_pend c)); reflexivity.
 Qed.
 
+Lemma find_ent_flag : forall (fl : entry -> bool) x es, forallb (fun e => negb (fl e)) es = true ->
+  match find_ent x es with Some e => fl e | None => false end = false.
+Proof.
+  intros fl x es H. destruct (find_ent x es) as [e|] eqn:F; [|reflexivity].
+  unfold find_ent in F. apply find_some in F. destruct F as [Hin _]. rewrite forallb_forall in H.
+  specialize (H e Hin). apply negb_true_iff in H. exact H.
+Qed.
+
+Lemma cons_st_nat : forall c x, wf_c c = true ->
+  cons_st (c_st c) (c_gen c =? 0) (memb x (ids (c_ents c))) (ent_jp c x) (ent_sp c x) = true.
+Proof.
+  intros c x H. destruct (wf_c_parts c H). unfold cons_st, ent_jp, ent_sp.
+  apply andb_true_iff; split; [apply andb_true_iff; split; [apply andb_true_iff; split|]|].
+  - destruct (cstate_eqb (c_st c) CEmpty); [|reflexivity]. cbn [negb orb] in *.
+    destruct (c_ents c); [reflexivity | discriminate].
+  - apply orb_true_iff in wc_jp0. destruct wc_jp0 as [E|E]; [rewrite E; reflexivity|].
+    rewrite (find_ent_flag e_jp x _ E). apply orb_true_r.
+  - apply orb_true_iff in wc_sp0. destruct wc_sp0 as [E|E]; [rewrite E; reflexivity|].
+    rewrite (find_ent_flag e_sp x _ E). apply orb_true_r.
+  - destruct (c_st c); try reflexivity; apply andb_true_iff in wc_leader0; destruct wc_leader0 as [_ G]; exact G.
+Qed.
+
 Lemma eqb_refl_b : forall b, Bool.eqb b b = true.
 Proof. destruct b; reflexivity. Qed.
 
@@ -257,8 +306,10 @@ Proof.
   intros c m Hc L W. destruct (wf_c_zfacts c Hc) as (Z1 & Z2 & Z3 & Z4).
   unfold cons_a.
   apply andb_true_iff; split; [apply andb_true_iff; split; [apply andb_true_iff; split; [apply andb_true_iff; split;
-    [apply andb_true_iff; split; [apply andb_true_iff; split|]|]|]|]|].
+    [apply andb_true_iff; split; [apply andb_true_iff; split; [apply andb_true_iff; split; [apply andb_true_iff; split|]|]|]|]|]|]|].
   - unfold absm. pcbn. apply cons_id_nat. exact Hc.
+  - unfold absm. pcbn. apply cons_st_nat. exact Hc.
+  - unfold absm. pcbn. apply cons_st_nat. exact Hc.
   - unfold absm. pcbn. apply cons_gen_nat.
   - unfold absm, cons_focus, focus_of. pcbn. destruct (m_ph m); cbn [ph_eqb];
       try (rewrite Z1, Z2, Z3, Z4, (Nat.eqb_sym 0 (m_id m)); simpl; apply eqb_refl_b).
@@ -279,4 +330,38 @@ Proof.
     repeat (apply andb_true_iff in W; destruct W as [W ?]). assumption.
   - unfold wf_m, wf_a in W. unfold absm in *. pcbn_in W. pcbn. rewrite L in W. cbn [negb orb] in W.
     repeat (apply andb_true_iff in W; destruct W as [W ?]). assumption.
+Qed.
+
+(* ---- where the member id comes from after a chain: unchanged, 0, or the id of the JoinGroup exchange ---- *)
+Inductive idsrc := SSame | SZero | SFocus.
+Definition src1 (jr : bool) (s : idsrc) (x : act) : idsrc :=
+  match x with AResetGeneration => SZero | ASetMemberId => if jr then SFocus else SZero | _ => s end.
+Definition src_of (jr : bool) (acts : list act) : idsrc := fold_left (src1 jr) acts SSame.
+Definition idval (m : member) (rid : nat) (s : idsrc) : nat :=
+  match s with SSame => m_id m | SZero => 0 | SFocus => rid end.
+
+Lemma react_id_gen : forall jr rid acts m0 m s0, (jr = false -> rid = 0) ->
+  m_id m0 = idval m rid s0 -> m_id (fold_left (react1 rid) acts m0) = idval m rid (fold_left (src1 jr) acts s0).
+Proof.
+  intros jr rid acts. induction acts as [|x r IH]; intros m0 m s0 Hj H; [exact H|].
+  cbn [fold_left]. apply IH; [exact Hj|].
+  destruct x; cbn [react1 src1]; try exact H; try reflexivity.
+  destruct jr; [reflexivity | rewrite (Hj eq_refl); reflexivity].
+Qed.
+Lemma react_id : forall jr rid acts m, (jr = false -> rid = 0) ->
+  m_id (react rid acts m) = idval m rid (src_of jr acts).
+Proof. intros. unfold react, src_of. apply react_id_gen; [assumption | reflexivity]. Qed.
+
+Lemma react1_keeps : forall rid m x, m_ph (react1 rid m x) = m_ph m /\ m_focus (react1 rid m x) = m_focus m
+  /\ m_name (react1 rid m x) = m_name m /\ m_hb (react1 rid m x) = m_hb m /\ m_inbox (react1 rid m x) = m_inbox m
+  /\ m_hbin (react1 rid m x) = m_hbin m /\ m_cmin (react1 rid m x) = m_cmin m.
+Proof. intros rid m x. destruct x; repeat split; reflexivity. Qed.
+Lemma react_keeps : forall rid acts m, m_ph (react rid acts m) = m_ph m /\ m_focus (react rid acts m) = m_focus m
+  /\ m_name (react rid acts m) = m_name m /\ m_hb (react rid acts m) = m_hb m /\ m_inbox (react rid acts m) = m_inbox m
+  /\ m_hbin (react rid acts m) = m_hbin m /\ m_cmin (react rid acts m) = m_cmin m.
+Proof.
+  intros rid acts. induction acts as [|x r IH]; intros m; [repeat split; reflexivity|].
+  unfold react in *. cbn [fold_left]. destruct (IH (react1 rid m x)) as (A & B & C & D & E & F & G).
+  destruct (react1_keeps rid m x) as (A' & B' & C' & D' & E' & F' & G').
+  rewrite A, B, C, D, E, F, G. repeat split; assumption.
 Qed.
